@@ -78,6 +78,8 @@ class TLCResult:
             if s.startswith("Error: Temporal properties were violated"):
                 self.violated.append("<temporal>")
                 continue
+            if s.startswith("Error: The behavior up to this point is") and self.violated:
+                continue                         # the counterexample of the invariant/property violation reported above
             if s.startswith("Error:"):
                 self.errors.append(s)
                 continue
